@@ -259,6 +259,16 @@ fn theta_images(c: &ThetaCase, info: &mut CaseInfo) -> Result<(), Fail> {
             (thspec::encode_v3(&list, theta, sh, ordered, empty, single_flag), format!("v3{}", if c.alt { "/alt" } else { "" }))
         }
     };
+    // a legacy form: EMPTY flag set on an image that still carries three preamble longs and theta = p < 1 (a
+    // never-updated sampling sketch as releases before the theta correction wrote it). Readers go by the flag:
+    // the plain empty sketch.
+    let (bytes, variant, theta, empty) = if c.ver == 3 && c.alt && entries.is_empty() && theta < thspec::MAX_THETA && bytes.len() >= 24 {
+        let mut b = bytes;
+        b[5] |= 4;
+        (b, "v3/empty-flag-with-theta".to_string(), thspec::MAX_THETA, true)
+    } else {
+        (bytes, variant, theta, empty)
+    };
     let kind = if empty { "empty" } else if theta < thspec::MAX_THETA { "estimating" } else if entries.len() == 1 { "single" } else { "exact" };
     let ctx = format!("{variant} {kind} image with {} entries (delta width {}), ordered {ordered}", entries.len(), c.width);
     let d = CompactThetaSketch::deserialize_with_seed(&bytes, c.seed).map_err(|e| Fail { clause: "C13.theta.valid_image_rejected".into(), detail: format!("{ctx}: {e}") })?;
